@@ -261,8 +261,9 @@ Definition kern_run (w : world) (o : opts) (t : target) (args : list string) : o
           Some ([ESetArgv] ++ ev1 ++ ev2 ++ ev3 ++ ev4
                 ++ (if timed then [ETimerCreate] else [])     (* one RepeatedTimer (since fix 204c2e5) *)
                 ++ [EProgram (run_mode o t) ob]
+                ++ [EUninstallGlobal]        (* first statement of main's finally (since 5d3505e) *)
                 ++ (if timed then [ETimerStop] else [])
-                ++ [EDump (outfile_of o t); EReport o.(o_view); EUninstallGlobal])
+                ++ [EDump (outfile_of o t); EReport o.(o_view)])
       end
   end.
 
